@@ -134,6 +134,7 @@ type Enc struct {
 	solverErrs []string
 	axioms     []string
 	inFinish   bool
+	escaped    []*closureInfo
 }
 
 func newEnc(w *World, f *ssa.Function, spec *Specs) *Enc {
@@ -562,6 +563,11 @@ func (e *Enc) frameOb(fr *Frame, pos token.Pos, text string, ref string, extra s
 		cond = "(or " + cond + " " + m + ")"
 	}
 	triv := e.allocTerms[ref]
+	for _, fv := range fr.fn.FreeVars {
+		if fr.vals[fv] == ref {
+			triv = true // a closure may assign its captured variables; the creator accounts for it
+		}
+	}
 	e.addOb(fr, "FRAME", "store", pos, text, cond, triv)
 }
 
@@ -775,6 +781,7 @@ func (e *Enc) encodeBody(fr *Frame, st0 *State, callReach string) {
 			st = e.instr(fr, st, in)
 		}
 		fr.out[b] = st
+		fr.reach[b] = e.cur // an inlined call that does not return ends the block early
 		// back edges: loop invariants must be re-established
 		for _, s := range b.Succs {
 			if isBackEdge(b, s) {
@@ -983,7 +990,7 @@ func (e *Enc) instr(fr *Frame, st *State, in ssa.Instruction) *State {
 		r := e.alloc(fr, &st, x, "cl")
 		fr.vals[x] = r
 		fr.closureOf[x] = &closureInfo{fn: x.Fn.(*ssa.Function), bindings: x.Bindings}
-		e.closureEscape(fr, x)
+		e.closureUse(fr, x, fr.closureOf[x])
 		return st
 	case *ssa.MakeInterface:
 		t := x.X.Type()
